@@ -116,3 +116,48 @@ void h_dir_fix(void)
 	__CPROVER_assert(0, "canary");
 #endif
 }
+
+/* ================================================================== dir_reorder: the final newline stays last, the rest is handed to dir_fix (C18) */
+struct ghost_dr_in { int n, last_nl, ctx; } DRI;
+struct ghost_dr { int fix_calls, fix_dir, fix_beg, fix_end, ctx_calls; } DR;
+static char g_drtext[3];
+static char *g_drchrs_obj;
+char **uc_chop(char *s, int *n)
+{
+	/* the characters of the line: all that matters here is how many there are and whether the last one is the newline */
+	char **c = malloc((DRI.n + 1) * sizeof(c[0]));
+	if (DRI.n > 0)
+		c[DRI.n - 1] = DRI.last_nl ? g_drtext + 1 : g_drtext;
+	*n = DRI.n;
+	return c;
+}
+int dir_context_rec_contract(char *s)
+__CPROVER_requires(s != 0)
+__CPROVER_assigns(DR.ctx_calls)
+__CPROVER_ensures(__CPROVER_return_value == DRI.ctx && DR.ctx_calls == __CPROVER_old(DR.ctx_calls) + 1)
+;
+void dir_fix_rec_contract(char **chrs, int *ord, int dir, int beg, int end)
+__CPROVER_requires(chrs != 0 && ord != 0 && DR.fix_calls == 0)
+__CPROVER_assigns(DR.fix_calls, DR.fix_dir, DR.fix_beg, DR.fix_end)
+__CPROVER_ensures(DR.fix_calls == 1 && DR.fix_dir == dir && DR.fix_beg == beg && DR.fix_end == end)
+;
+void dir_reorder_contract(char *s, int *ord)
+__CPROVER_requires(0 <= DRI.n && DRI.n <= 0x1000000 && s != 0 && __CPROVER_is_fresh(ord, sizeof(int) * (DRI.n + 1)))
+__CPROVER_assigns(DR, __CPROVER_object_whole(ord))
+__CPROVER_frees()
+/* a final newline is never reordered: it keeps the last place; everything before it is one segment for dir_fix, in the line's base direction */
+__CPROVER_ensures(DR.fix_calls == 1 && DR.ctx_calls == 1 && DR.fix_dir == DRI.ctx && DR.fix_beg == 0 && DR.fix_end == DRI.n - ((DRI.n > 0 && DRI.last_nl) ? 1 : 0))
+__CPROVER_ensures((DRI.n > 0 && DRI.last_nl) ==> ord[DRI.n - 1] == DRI.n - 1)
+;
+void h_dir_reorder(void)
+{
+	int *ord;
+	GHOST_INIT();
+	DRI.n = nondet_int(); DRI.last_nl = nondet_bool(); DRI.ctx = nondet_bool() ? 1 : -1;
+	g_drtext[0] = 'x'; g_drtext[1] = '\n'; g_drtext[2] = 0;
+	DR.fix_calls = DR.ctx_calls = 0;
+	dir_reorder(g_drtext, ord);
+#ifdef CANARY
+	__CPROVER_assert(0, "canary");
+#endif
+}
